@@ -194,7 +194,8 @@ struct GramEngine {
         auto V = [&](const std::string &prop, const std::string &kind, const std::string &detail) {
           std::string kf = classify_known(cfg.known_enabled, prop, kind, g, w, f, R, o);
           std::string js = viol_json(prop, kind, addr, g, codes_in, fl, detail);
-          if (!kf.empty()) { js.insert(js.size() - 1, ",\"finding\":" + jstr(kf)); rep.knownf(js); }
+          if (getenv("VERIF_FEATURES")) js.insert(js.size() - 1, ",\"features\":" + jstr(features(R)) + ",\"nderiv\":" + std::to_string(rootv ? rootv->cnt : 0));
+          if (!kf.empty()) { js.insert(js.size() - 1, ",\"finding\":" + jstr(kf)); rep.knownf(js); rep.add("known_" + kf); }
           else rep.viol(js);
           if (cfg.verbose) printf("VIOLATION-DETAIL %s\n", js.c_str());
         };
@@ -483,7 +484,7 @@ struct GramEngine {
     Flags f; if (!sc.only_fl.empty()) parse_flags(sc.only_fl, f);
     std::string kf = history ? "" : classify_known_crash(cfg.known_enabled, prop, g, w, f);
     std::string js = viol_json(prop, kind, addr, g, codes_in, sc.only_fl, detail);
-    if (!kf.empty()) { js.insert(js.size() - 1, ",\"finding\":" + jstr(kf)); total.knownf(js); }
+    if (!kf.empty()) { js.insert(js.size() - 1, ",\"finding\":" + jstr(kf)); total.knownf(js); total.add("known_" + kf); }
     else total.viol(js);
   }
 
@@ -499,6 +500,8 @@ static FamilySpec family_spec(const std::string &name) {
   if (name == "qe") return FamilySpec{2, 2, 3, 2, 7, true};
   if (name == "t1") return FamilySpec{2, 2, 4, 3, 9, false};
   if (name == "t2") return FamilySpec{2, 3, 4, 2, 9, false};
+  if (name == "q3") return FamilySpec{2, 2, 2, 3, 7, false};
+  if (name == "q3e") return FamilySpec{2, 2, 2, 3, 7, true};
   if (name == "mini") return FamilySpec{1, 2, 2, 2, 5, false};
   if (name == "minie") return FamilySpec{1, 2, 2, 2, 5, true};
   machinery_error("unknown family " + name);
